@@ -21,15 +21,16 @@ CLAIMED = {
         "(`(a + b) * c` -> `a + b * c`), recorded in known_findings.json; any other mis-grouping or operand/operator mix-up is still reported.",
    ref="DESIGN.md section 0.5, C01"),
  "C02": dict(
-   cat="model_checking", tech="enum-level symbolic execution of rustc MIR + SMT (z3): the checker's and the lowering pass's rule bodies for `name = value` against one documented rule; accepted programs generated natively",
-   text="Solver-based, the FIRST HALF of the property - code generation does not refuse what the checker accepted - for three mechanisms (the assignment rule; totality of statement lowering; numeric result types of the checker): TypeChecker::check_assignment and the Assignment arm "
+   cat="model_checking", tech="enum-level symbolic execution of rustc MIR + SMT (z3/cvc5): the checker's and the lowering pass's rule bodies against one documented rule, totality of statement lowering, numeric typing slices; bounded model checking (Kani/CBMC) of the Rust-keyword table; accepted programs generated natively",
+   text="Solver-based, the FIRST HALF of the property - code generation does not refuse what the checker accepted - for four mechanisms (the assignment rule; totality of statement lowering; numeric result types of the checker; the keyword table behind name escaping): TypeChecker::check_assignment and the Assignment arm "
         "of AstLowering are executed symbolically (scope chains of 0..=2 scopes, every binding kind, symbol-table lookups as arbitrary answers) and each is decided against the "
         "one documented rule (search the whole scope chain; immutable -> error; mutable -> re-assignment; unbound -> new binding). If both follow it, every assignment the checker "
         "accepts is one lowering accepts; where one deviates, the programs of the deviating class are type-checked and generated through the public API - accepted by `incan "
         "--check` but refused by code generation is the violation. X-lower_total: every variant of ast::Statement has a lowering path that returns Ok when the lowering of its "
         "parts succeeds (each arm of the statement lowering executed with sub-lowerings and lookups as arbitrary answers) - a kind refused on every path is replayed as an accepted "
         "program that code generation cannot build. X-check_binary / X-compound_assign (shared with C07): the static type the checker gives arithmetic and compound assignment is "
-        "the documented one, i.e. the type the emitted Rust expression has - an accepted `n /= 2` on an int would be a rustc type error in the generated project.",
+        "the documented one, i.e. the type the emitted Rust expression has - an accepted `n /= 2` on an int would be a rustc type error in the generated project. c13_keyword_table_len2..8 (Kani, shared with C13): every Rust keyword that can be "
+        "raw is recognised by the table the emitter escapes names with - a missed one makes the generator's own syn re-parse fail on an accepted program.",
    note="Kernel-only: rustc compiling the generated project (the larger half of the property), every other construct, and multi-file programs are NOT covered - the oracle for "
         "those is rustc itself, which neither engine encodes. Two known findings (known_findings.json): tuple assignment to non-name targets is accepted and cannot be lowered at all; re-assigning an immutable binding of an enclosing scope from a nested "
         "block is accepted by the checker and fails in code generation; it shares its root cause with the C03 finding and cannot be repaired without editing a pinned snapshot.",
@@ -246,7 +247,7 @@ m = {
  "hooks": {"guard": "cfg(kani)", "enable": "cargo kani passes --cfg=kani to every crate; no hook is currently needed (all entry points are pub API or read from the MIR dump)",
            "baseline_off_cmd": "cd /repo && cargo test --workspace --no-fail-fast --offline", "source_commits": [], "add_only": True},
  "engines": [
-   {"name": "E1 kani", "path": "kani/", "serves_properties": [c for c in ("C01", "C05", "C07", "C11", "C13", "C14", "C19") if c in claimed],
+   {"name": "E1 kani", "path": "kani/", "serves_properties": [c for c in ("C01", "C02", "C05", "C07", "C11", "C13", "C14", "C19") if c in claimed],
     "kind_free_text": "Kani 0.68 / CBMC 6.11 proof harnesses in an external crate with path dependencies on /repo; counterexamples replayed by replay/ (same harness bodies, native, dev+release)"},
    {"name": "E2 mirsmt", "path": "mirsmt/", "serves_properties": [c for c in ("C01", "C03", "C04", "C05", "C06", "C07", "C02", "C08", "C09", "C11", "C12", "C13", "C14", "C15", "C16", "C17") if c in claimed],
     "kind_free_text": "own symbolic executor over rustc's -Zunpretty=mir dump of the working tree, emitting SMT-LIB for cvc5 1.0 / z3 4.8.12"},
@@ -264,7 +265,7 @@ for pid in sorted(CLAIMED):
             "thorough_cmd": f"./check {pid} --tier thorough",
             "evidence_file": f"/verif/evidence/{pid}.json",
             "replay_cmd_template": f"./check {pid} --replay {{path}}",
-            "engine": {"C04": "E2 mirsmt + E1 kani", "C05": "E1 kani + E2 mirsmt", "C06": "E2 mirsmt + E1 kani", "C01": "E2 mirsmt + E1 kani", "C07": "E2 mirsmt + E1 kani", "C13": "E1 kani + E2 mirsmt", "C11": "E1 kani + E2 mirsmt", "C14": "E1 kani + E2 mirsmt", "C17": "E2 mirsmt", "C03": "E2 mirsmt", "C08": "E2 mirsmt", "C09": "E2 mirsmt", "C12": "E2 mirsmt", "C15": "E2 mirsmt", "C16": "E2 mirsmt", "C02": "E2 mirsmt"}.get(pid, "E1 kani"),
+            "engine": {"C04": "E2 mirsmt + E1 kani", "C05": "E1 kani + E2 mirsmt", "C06": "E2 mirsmt + E1 kani", "C01": "E2 mirsmt + E1 kani", "C07": "E2 mirsmt + E1 kani", "C13": "E1 kani + E2 mirsmt", "C11": "E1 kani + E2 mirsmt", "C14": "E1 kani + E2 mirsmt", "C17": "E2 mirsmt", "C03": "E2 mirsmt", "C08": "E2 mirsmt", "C09": "E2 mirsmt", "C12": "E2 mirsmt", "C15": "E2 mirsmt", "C16": "E2 mirsmt", "C02": "E2 mirsmt + E1 kani"}.get(pid, "E1 kani"),
             "level_claimed": {"category": c["cat"], "text": c["text"], "design_ref": c["ref"]},
             "level_note": c["note"],
             "technique": c["tech"],
